@@ -673,7 +673,8 @@ fn main() {
             let mut n = 0u64;
             let mut refs = 0u64;
             for (i, c) in cs.iter().enumerate() {
-                if i % of != slice {
+                // mix the index: the innermost loops of the case list (operation x root pair) have period 16
+                if (i + i / 16 + i / 256 + i / 4096) % of != slice {
                     continue;
                 }
                 eprintln!("CASE {} {} {} {} {} {}", c.body, c.mode, c.a, c.b, c.ra, c.rb);
